@@ -8371,6 +8371,22 @@ let sat8 x =
   then Npos (XI (XI (XI (XI (XI (XI (XI XH)))))))
   else x
 
+(** val tf_bump : threefold -> board -> threefold * n **)
+
+let rec tf_bump tf b =
+  match tf with
+  | [] -> (((b, (Npos XH)) :: []), (Npos XH))
+  | p :: r ->
+    let (b', c) = p in
+    if tf_key_eqb b' b
+    then let c' = sat8 (N.add c (Npos XH)) in (((b', c') :: r), c')
+    else let (r', c') = tf_bump r b in (((b', c) :: r'), c')
+
+(** val tf_add : threefold -> board -> threefold * bool **)
+
+let tf_add tf b =
+  let (tf', c) = tf_bump tf b in (tf', (N.eqb c (Npos (XI XH))))
+
 type blist = (board * n) list
 
 (** val bl_count : blist -> threefold -> board -> n **)
@@ -8710,6 +8726,33 @@ let rec deepen k tf passes fuel root depth best bsc maxd st0 =
 let search k tf passes fuel root =
   deepen k tf passes fuel root N0 None (worst root.b_turn) N0 { s_polls = N0;
     s_evals = N0 }
+
+type bot = { bt_board : board; bt_tf : threefold }
+
+(** val bot_init : bot **)
+
+let bot_init =
+  { bt_board = standard; bt_tf = [] }
+
+(** val bot_set_board : board -> bot **)
+
+let bot_set_board b =
+  { bt_board = b; bt_tf = [] }
+
+(** val bot_make_move : bot -> move -> bot * (bool * bool) **)
+
+let bot_make_move s m =
+  if is_legal s.bt_board m
+  then let b' = apply s.bt_board m in
+       let (tf', three) = tf_add s.bt_tf b' in
+       ({ bt_board = b'; bt_tf = tf' }, (true, three))
+  else (s, (false, false))
+
+(** val bot_evaluate : n -> nat -> nat -> bot -> move option * score **)
+
+let bot_evaluate k passes fuel s =
+  let (p, _) = search k s.bt_tf passes fuel s.bt_board in
+  let (p0, _) = p in p0
 
 (** val api_score_cmp : score -> score -> comparison **)
 
@@ -9375,3 +9418,28 @@ let api_nat_of_N =
 
 let api_score_neg2 =
   neg
+
+(** val api_bot_init : bot **)
+
+let api_bot_init =
+  bot_init
+
+(** val api_bot_set_board : board -> bot **)
+
+let api_bot_set_board =
+  bot_set_board
+
+(** val api_bot_make_move : bot -> move -> bot * (bool * bool) **)
+
+let api_bot_make_move =
+  bot_make_move
+
+(** val api_bot_evaluate : n -> nat -> nat -> bot -> move option * score **)
+
+let api_bot_evaluate =
+  bot_evaluate
+
+(** val api_bot_board : bot -> board **)
+
+let api_bot_board b =
+  b.bt_board
